@@ -366,6 +366,7 @@ package jsonpatch
 //@   ensures[C01] nil: src == nil ==> result.0 == nil && result.1 == 0 && result.2 == nil
 //@   ensures[C01,C09] fresh-copy: src != nil && result.2 == nil ==> result.0 != nil && fresh(result.0) && result.0.which == eRaw && result.0.doc == nil && result.0.ary == nil && result.0.raw != nil && fresh(result.0.raw) && fresh(*result.0.raw) && wf(*result.0.raw) && nows(*result.0.raw)
 //@   ensures[C12] size: src != nil && result.2 == nil ==> result.1 == len(*result.0.raw) && result.1 >= 0
+//@   ensures[C01,C12] spelled-as-output: src != nil && src.which == eRaw && result.2 == nil ==> bytes(*result.0.raw) == spell(val(*src.raw), options.EscapeHTML) && val(*result.0.raw) == val(*src.raw)
 //@   ensures[C04,C12] size-bound: 0 <= result.1 && result.1 <= 72057594037927936
 //@   ensures[C08] attrs: !isTestFailed(result.2) && !isMissing(result.2) && !isCopyLimit(result.2) && !isInvalidIndex(result.2)
 //@   ensures[C01] nil-on-error: result.2 != nil ==> result.0 == nil
@@ -456,8 +457,8 @@ package jsonpatch
 //@   ensures[C08] missing-parent: reached(findObject#1) && con != nil || !reached(findObject#1) || isMissing(err)
 //@   ensures[C08] missing-destination: reached(findObject#2) && dst == nil ==> isMissing(err)
 //@   ensures[C01] missing-source: reached(findObject#1) && con != nil && key != "" && (isDoc(con) ==> docOf(con).obj != nil) && (isDoc(con) || isAry(con)) && !at(findObject#1, conHas(con, key, neg)) ==> err != nil
-//@   ensures[C01] removed-before-resolving-object: reached(findObject#2) && isDoc(con) && key != "" ==> pre(findObject#2, !(key in docOf(con).obj))
-//@   ensures[C01] removed-before-resolving-array: reached(findObject#2) && isAry(con) && key != "" ==> pre(findObject#2, len(aryOf(con).nodes)) == at(findObject#1, len(aryOf(con).nodes)) - 1
+//@   ensures[C01,C08] removed-before-resolving-object: reached(findObject#2) && isDoc(con) && key != "" ==> pre(findObject#2, !(key in docOf(con).obj))
+//@   ensures[C01,C08] removed-before-resolving-array: reached(findObject#2) && isAry(con) && key != "" ==> pre(findObject#2, len(aryOf(con).nodes)) == at(findObject#1, len(aryOf(con).nodes)) - 1
 //@   ensures[C01] object-destination: reached(findObject#2) && dst != nil && isDoc(dst) && docOf(dst).obj != nil && key != "" ==> err == nil && dstKey in docOf(dst).obj && docOf(dst).obj[dstKey] == at(findObject#1, conAt(con, key))
 //@   ensures[C01] array-destination: reached(findObject#2) && dst != nil && isAry(dst) && err == nil && key != "" ==> aryOf(dst).nodes[idxAddVal(dstKey, at(findObject#2, len(aryOf(dst).nodes)))] == at(findObject#1, conAt(con, key))
 
@@ -666,3 +667,15 @@ package jsonpatch
 
 //@ func (*partialDoc).TrustMarshalJSON
 //@   requires recv: n != nil && buf != nil
+//@   modifies ghost(BufContent)
+//@   ensures[C15] not-an-object: n.obj == nil ==> err != nil && BufContent == old(BufContent)
+//@   callsite[C15] WriteByte#1 opens-object: arg_c == '{'
+//@   callsite[C15] WriteByte#2 comma-between-members: arg_c == ',' && i > 0
+//@   callsite[C05,C15] MarshalEscaped#1 member-names-in-key-order: arg_v == n.keys[i] && (arg_escape <==> (n.opts == nil || n.opts.EscapeHTML))
+//@   callsite[C15] Write#1 writes-the-name: bytes(arg_p) == bytes(key)
+//@   callsite[C15] WriteByte#3 colon-after-name: arg_c == ':'
+//@   callsite[C05,C15] MarshalEscaped#2 member-value: arg_v == (n.keys[i] in n.obj ? n.obj[n.keys[i]] : nil) && (arg_escape <==> (n.opts == nil || n.opts.EscapeHTML))
+//@   callsite[C15] Write#2 writes-the-value: bytes(arg_p) == bytes(value)
+//@   callsite[C15] WriteByte#4 closes-object: arg_c == '}'
+//@   loop 1
+//@   invariant keys-fixed: n.keys == old(n.keys) && n.obj == old(n.obj) && n.opts == old(n.opts)
